@@ -184,10 +184,13 @@ Qed.
 Lemma wc_ops_new L w ops :
   wc_ops eqb L w = Ok ops -> Forall (fun o => incl (op_new o) (wop_new w) /\ reorders o = false) ops.
 Proof.
-  assert (Hins : forall i ns, Forall (fun o => incl (op_new o) ns /\ reorders o = false) (ins_ops i ns)).
-  { intros i ns. unfold ins_ops. apply Forall_forall. intros o Ho. apply in_map_iff in Ho.
-    destruct Ho as (x & <- & Hx). apply in_rev in Hx. split; [|reflexivity].
-    cbn. intros y [<-|[]]. exact Hx. }
+  assert (Hins : forall len i ns, Forall (fun o => incl (op_new o) ns /\ reorders o = false) (ins_ops len i ns)).
+  { intros len i ns. unfold ins_ops. generalize (adj len i). intros z.
+    assert (G : forall (l ns0 : list A) z0, incl l ns0 -> Forall (fun o => incl (op_new o) ns0 /\ reorders o = false) (ins_at z0 l)).
+    { induction l as [|x l IHl]; intros ns0 z0 Hi; cbn [ins_at]; constructor.
+      - split; [|reflexivity]. cbn. intros y [<-|[]]. apply Hi. now left.
+      - apply IHl. intros y Hy. apply Hi. now right. }
+    apply G. apply incl_refl. }
   assert (Hpop : forall i n ns, Forall (fun o => incl (op_new o) ns /\ reorders o = false) (pop_ops i n)).
   { intros i n ns. unfold pop_ops. apply Forall_forall. intros o Ho. apply repeat_spec in Ho. subst o.
     split; [apply incl_nil_l|reflexivity]. }
